@@ -253,6 +253,20 @@ theorem quiescent_partial (fuel : Nat) (ev : Match.Ev) (s s' : VM)
     s'.r.queue = [] ∧ ∀ nm k, (bucket s'.ixs.ix nm).count k = (scan s'.ixs.ix).count (nm, k) :=
   ⟨queue_empty_at_exit fuel ev s s' h, fun nm k => quiescent_partial_index s' hok hns nm k⟩
 
+/-- **worklist, part 1** (`quiescent` needs: every non-parked active head is in the pending list): what
+    `advanceHeadFront` hands back as pending are heads that exist and are not INACTIVE in the resulting state. -/
+theorem pending_heads_are_live_partial (fuel : Nat) (heads : List Key) (s s' : VM) (r : List Key)
+    (h : advanceHeadFront fuel heads s = .ok r s') :
+    ∀ k ∈ r, ∃ hd, (findInst s'.ixs.ix k.1).bind (·.findHead k.2) = some hd ∧ hd.status ≠ .inactive :=
+  advanceHeadFront_returns_live fuel heads s s' r h
+
+/-- **worklist, part 2**: when the merging loop ends, every pending head is ACTIVE (no head is left MERGING in the
+    worklist) and the queue is empty. -/
+theorem merging_loop_exit_partial (fuel : Nat) (acts : List Key) (s s' : VM) (r : List Key)
+    (h : mergeLoop fuel acts s = .ok r s') :
+    s'.r.queue = [] ∧ ∀ k ∈ r, headStatusOf s'.ixs.ix k = some .active :=
+  ⟨mergeLoop_queue_empty fuel acts s s' r h, mergeLoop_returns_active fuel acts s s' r h⟩
+
 /-- the literal specification: with a program-level name oracle `P` that the ghost field agrees with
     (`Coherent`, i.e. NoRefReassignWhileParked: no event name changed under a parked head), the scan is the
     one of the property statement: all (P instance position, instance, head) with head status ≠ INACTIVE,
@@ -310,8 +324,8 @@ theorem scan_eq_scanP (P : FUid → Nat → Option String) (s : IState) (hc : Co
     instance that is not parked is in the pending list of the current loop" carried through
     `advanceHeadFront`, the merging loop and `resolveActionConflicts`.
 
-  What is proved above: the queue clause (loop structure) and the index clause (by construction + T1), the latter
-  under the run-time-checked hypotheses `ok` and `NoStopping`. `Parked`, `NoPos`, `RefsLive`, and the fact that the
+  What is proved above: the queue clause (loop structure), the index clause and the no-position clause (by construction
+  + T1, under the run-time-checked hypothesis `ok`, the former also `NoStopping`), and two worklist facts. `Parked`, `NoPos`, `RefsLive`, and the fact that the
   guards hold / no instance is left STOPPING, rest on the oracle evaluated on the real interpreter state after
   every event and on the CoreVM correspondence (which compares heads, statuses, index, actions, queue length and
   reports the `ok` flag), not on a theorem.  `RefsLive` is known to be violated by the code (finding
